@@ -291,6 +291,10 @@ def _geoms(ctx):
     geos = {"proj": "geos", "h": 35785831.0, "lon_0": 0, "a": 6378169.0, "b": 6356583.8}
     llsrc = A("ll_s", ll, 60, 50, (-80.0, -75.0, 80.0, 75.0))
     out.append(("ll->geos-disk", llsrc, A("t8", geos, 22, 22, (-5570000, -5570000, 5570000, 5570000)), 600000, 32))
+    # a target CRS on a datum with a shift to WGS84 (Gauss-Krueger zone 3 on the Potsdam datum): coordinates are projected, never datum-shifted
+    gk = {"proj": "tmerc", "lat_0": 0, "lon_0": 9, "k": 1, "x_0": 3500000, "y_0": 0, "datum": "potsdam", "units": "m"}
+    out.append(("gk-potsdam-same-crs", A("gk_s", gk, 30, 26, (3400000, 5500000, 3700000, 5760000)),
+                A("gk_t", gk, 21, 19, (3452300, 5561200, 3641300, 5732200)), 30000, 32))
     for k in range(1 if ctx.quick else 6):
         w, h = rng.randint(15, 40), rng.randint(15, 40)
         res = rng.choice([4000.0, 10000.0])
@@ -531,6 +535,26 @@ def suite_resamplers(ctx):
                              inp, None, tags={"cause": "weights"}, size=n_out)
                 results_np[(kind, ndim)] = (stack, res3, inp, dtype)
 
+        # two different datasets resampled lazily by ONE resampler and evaluated in ONE graph must stay two different results
+        if ("random", 2) in results_np and ("affine", 2) in results_np and results_np[("random", 2)][3] is not np.uint8:
+            st_a, ref_a = results_np[("random", 2)][0], results_np[("random", 2)][1]
+            st_b, ref_b = results_np[("affine", 2)][0], results_np[("affine", 2)][1]
+            with warnings.catch_warnings(), np.errstate(all="ignore"), dask.config.set(scheduler="synchronous"):
+                warnings.simplefilter("ignore")
+                xrs = XArrayBilinearResampler(src, tgt, radius, neighbours=neighbours, reduce_data=inp0["reduce_data"])
+                la = xrs.resample(xr.DataArray(da.from_array(st_a[0], chunks=(7, 11)), dims=("y", "x")), fill_value=np.nan)
+                lb = xrs.resample(xr.DataArray(da.from_array(st_b[0], chunks=(7, 11)), dims=("y", "x")), fill_value=np.nan)
+                ja, jb = dask.compute(la.data, lb.data)
+            ctx.case("resampler-joint", (label,), nontrivial=True)
+            ctx.count("res.xarray.joint_compute")
+            for nm, j_, r_ in (("first", np.asarray(ja, float), ref_a[0]), ("second", np.asarray(jb, float), ref_b[0])):
+                with np.errstate(all="ignore"):
+                    bad = (np.isnan(j_) != np.isnan(r_)) | (~np.isnan(r_) & (np.abs(j_ - r_) > 1e-5 * (1 + np.abs(r_))))
+                if bad.any():
+                    idx = tuple(map(int, np.argwhere(bad)[0]))
+                    ctx.fail("bilinear.XArrayBilinearResampler.resample", f"two datasets resampled with one resampler and computed together: the {nm} result at {idx} is {j_[idx]} "
+                             f"but computed alone (and by the numpy resampler) it is {r_[idx]} ({int(bad.sum())} positions)", {**inp0, "which": nm}, None,
+                             tags={"cause": "joint-compute"}, size=n_out)
         # xarray / dask resampler: every chunking gives the numpy result
         chunkings = [(-1, -1), (7, 11), (5, 5)] if ctx.quick else [(-1, -1), (7, 11), (5, 5), (13, 4), (1, 9)]
         geo_chunks = [4096, 9] if ctx.quick else [4096, 9, 16]
